@@ -13,7 +13,7 @@ def main(tier: str, seed: int) -> int:
             "universe over input AND derived predicates, all answer sets; multiset equality on voc(P) with costs. "
             "non-trivial = the normal form differs from the input text and the outcome varies")
     bounds = {"statements": len(fam.statements(tier)), "core": len(fam.CORE)}
-    return generic.family_main(PROP, tier, seed, fam.jobs(tier), rule, bounds)
+    return generic.family_main(PROP, tier, seed, generic.with_variants(fam.jobs(tier), tier), rule, dict(bounds, variants=True))
 
 
 def replay(path: str) -> int:
